@@ -23,9 +23,11 @@ from ..templates import TemplateHooks, make_hole, to_term, show
 from ..galg import (GraphHooks, Evaluator, evaluate_set, deep_snapshot,
                     all_graphs, all_subsets, NotEvaluable, GraphError, CG,
                     g_sccs, g_reach, g_reversed, _freeze)
+from ..fields import height_field
 from ..report import Finding, RuleResult, floor, Attempts, adopt
 
 PROP = 'C02'
+STATE_FIELD = ['state']     # name of the state field of a tableau atom
 
 
 # ---------------------------------------------------------------------------
@@ -106,6 +108,24 @@ def discover(prog):
     if P.atomcls is None:
         raise Inconclusive('R-LTL', 'atom class not found',
                            P.atoms_fn.where())
+    # the field of an atom that holds its state: filled by the atom class's
+    # constructor from its first argument
+    ainit = prog.method(P.atomcls, '__init__', own=True)
+    if ainit is not None:
+        from ..fields import _attr_assigned_from_param
+        nm = _attr_assigned_from_param(ainit, 1)
+        if nm:
+            STATE_FIELD[0] = nm
+    # the field of the tableau that holds the atoms: T.<F>[i] in the SCC
+    # filter (T its first parameter)
+    P.atoms_field = 'atoms'
+    tpar = P.sccfilter.node.args.args[0].arg
+    for n in ast.walk(P.sccfilter.node):
+        if isinstance(n, ast.Subscript) and \
+                isinstance(n.value, ast.Attribute) and \
+                isinstance(n.value.value, ast.Name) and \
+                n.value.value.id == tpar:
+            P.atoms_field = n.value.attr
     return P
 
 
@@ -210,7 +230,8 @@ class LTLHooks(TemplateHooks, GraphHooks):
         o = path.alloc('inst')
         h = path.heap[o.oid]
         h.ci = self.atomcls
-        h.fields['state'] = state
+        h.fields['$state'] = state
+        h.fields[STATE_FIELD[0]] = state
         m = path.alloc('set')
         for x in members:
             path.heap[m.oid].parts.append(Part('elem', x))
@@ -238,10 +259,10 @@ class LTLHooks(TemplateHooks, GraphHooks):
             for x in items:
                 if not any(self.feq(y, x) is True for y in mem):
                     mem.append(x)
-            return [(path, self.new_atom(I, path, h.fields['state'], mem,
+            return [(path, self.new_atom(I, path, h.fields['$state'], mem,
                                          h.fields['$rest']))]
         if name == 'clone' and not args:
-            return [(path, self.new_atom(I, path, h.fields['state'],
+            return [(path, self.new_atom(I, path, h.fields['$state'],
                                          [p.val for p in m.parts],
                                          h.fields['$rest']))]
         return None
@@ -761,10 +782,10 @@ def rule_ltl0(prog, P):
                 raise Inconclusive('R-LTL-0', '%d paths through %s' % (
                     len(res), s.wrap.short()), s.wrap.where())
             p = res[0][0]
-            hv = p.heap[me.oid].fields.get('height')
+            hv = p.heap[me.oid].fields.get(height_field(prog))
             bad = None
             for hs in itertools.product((0, 1, 2), repeat=n):
-                env = {App('attr', o, Const('height')): h
+                env = {App('attr', o, Const(height_field(prog))): h
                        for o, h in zip(ops, hs)}
                 try:
                     got = Evaluator(env).ev(hv) if hv is not None else None
@@ -1086,7 +1107,7 @@ class LEval(Evaluator):
         if k in self.env:
             return self.env[k]
         v = self.ev(x)
-        if isinstance(v, AtomVal) and name.v == 'state':
+        if isinstance(v, AtomVal) and name.v == STATE_FIELD[0]:
             return v.state
         raise NotEvaluable('attribute %s' % name.v)
 
@@ -1174,7 +1195,7 @@ def rule_ltl4(prog, P):
                     for Cs in ([0], [0, 1][:n]):
                         nm += 1
                         env = {T: g, C: tuple(Cs), CL: frozenset(forms),
-                               App('attr', T, Const('atoms')):
+                               App('attr', T, Const(P.atoms_field)):
                                    [AtomVal(i, a)
                                     for i, a in enumerate(atoms)]}
                         Fm = set()
@@ -1260,7 +1281,7 @@ def rule_ltl4(prog, P):
                                  for i in range(n)]
                         env = {T: g, Sym('GOOD'): _Goodset(good),
                                PF: pf,
-                               App('attr', T, Const('atoms')): atoms}
+                               App('attr', T, Const(P.atoms_field)): atoms}
                         seeds = set()
                         for c, m in zip(sccs, goodmask):
                             if m:
@@ -1320,7 +1341,8 @@ def rule_ltl5(prog, P):
         for i in range(n):
             o = path.alloc('inst')
             path.heap[o.oid].ci = P.atomcls
-            path.heap[o.oid].fields['state'] = sts[i]
+            path.heap[o.oid].fields['$state'] = sts[i]
+            path.heap[o.oid].fields[STATE_FIELD[0]] = sts[i]
             atoms.append(o)
         lst = I._mk_coll('list', atoms, path, None)
         res = I.call_function(FRef(helper), [lst], [], path, helper.node)
